@@ -166,7 +166,9 @@ def simple_area(simple, px0, py0, px1, py1):
             return 0.0
         if rho < 1 - hd * 1.0001:
             return (px1 - px0) * (py1 - py0)
-        return ellipse_pixel_area(px0, py0, px1, py1, p, q, th)
+        area = ellipse_pixel_area(px0, py0, px1, py1, p, q, th)
+        # the Green's-theorem sum leaves ~1e-17 residue for disjoint shapes
+        return 0.0 if area < 1e-14 * (px1 - px0) * (py1 - py0) else area
     return rect_pixel_area(px0, py0, px1, py1, p, q, th)
 
 
@@ -251,6 +253,17 @@ def weight_image(shape, x0, y0, imshape, method='exact', subpixels=5):
     if method == 'exact' and not is_rect:
         W[i0:i1, j0:j1] = exact_weights(shape, x0, y0, j0, j1, i0, i1)
         S[(W > 0) & (W < 1)] = 1e-8
+        # pixels that the boundary may touch (not decided by the Lipschitz
+        # bound) keep the kernel tolerance even when their overlap is 0 or 1
+        X = np.arange(j0, j1)[None, :] - x0 + np.zeros((i1 - i0, 1))
+        Y = np.arange(i0, i1)[:, None] - y0 + np.zeros((1, j1 - j0))
+        und = np.zeros((i1 - i0, j1 - j0), bool)
+        for sign, (t, p, q, th) in components(shape):
+            c, s = math.cos(th), math.sin(th)
+            rho = np.hypot((X * c + Y * s) / p, (-X * s + Y * c) / q)
+            hd = 0.70711 / min(p, q) * 1.0002
+            und |= (rho >= 1 - hd) & (rho <= 1 + hd)
+        S[i0:i1, j0:j1][und] = 1e-8
     else:
         s = 1 if method == 'center' else (32 if method == 'exact'
                                           else int(subpixels))
@@ -288,3 +301,30 @@ def box_misses(shape, x0, y0, imshape):
                     for (x0_, x1_, y0_, y1_) in alt)
         return miss, flips
     return miss, False
+
+
+def degenerate_contact(shape, x0, y0, tol=1e-9):
+    """True if the pixel grid touches an *ellipse* component degenerately:
+    a pixel corner on the ellipse (|rho^2-1| < tol) or a grid line tangent
+    to it (extent within tol of a half-integer).  This is the input region
+    of known finding F24 (exact elliptical kernel)."""
+    for sign, (t, p, q, th) in components(shape):
+        if t != 'e':
+            continue
+        c, s = math.cos(th), math.sin(th)
+        dx = math.sqrt((p * c) ** 2 + (q * s) ** 2)
+        dy = math.sqrt((p * s) ** 2 + (q * c) ** 2)
+        for v, d in ((x0 - dx, dx), (x0 + dx, dx), (y0 - dy, dy), (y0 + dy, dy)):
+            h = v + 0.5
+            if abs(h - round(h)) <= tol * max(1.0, d, abs(v)):
+                return True
+        jx = np.arange(math.floor(x0 - dx) - 1, math.ceil(x0 + dx) + 2)
+        iy = np.arange(math.floor(y0 - dy) - 1, math.ceil(y0 + dy) + 2)
+        if jx.size * iy.size > 4_000_000:
+            continue
+        X = jx[None, :] - 0.5 - x0
+        Y = iy[:, None] - 0.5 - y0
+        d2 = ((X * c + Y * s) / p) ** 2 + ((-X * s + Y * c) / q) ** 2
+        if np.any(np.abs(d2 - 1) < tol):
+            return True
+    return False
